@@ -247,6 +247,88 @@ theorem tower_exact [Fintype ι] [DecidableEq ι] (R : ι → ℝ) (a b : Tower 
 
 end TowerInduction
 
+section ConeForms
+/-! (M5) the textbook exponential-cone forms that C06 / C07 take as the MEANING of log, perspective log, entropy, softplus and
+KL-divergence constraints, proved from Mathlib's `Real.exp` / `Real.log` (interior of the cone, `c > 0`; the closure is not examined) -/
+
+/-- interior of the exponential cone as rsome orders it: `(a, b, c)` with `c > 0` and `c·exp(a/c) ≤ b` -/
+def Kexp (a b c : ℝ) : Prop := 0 < c ∧ c * Real.exp (a / c) ≤ b
+
+theorem cone_form_exp (x t : ℝ) : Real.exp x ≤ t ↔ Kexp x t 1 := by
+  simp [Kexp]
+
+theorem cone_form_log (x t : ℝ) (hx : 0 < x) : t ≤ Real.log x ↔ Kexp t x 1 := by
+  simp [Kexp, Real.le_log_iff_exp_le hx]
+
+theorem cone_form_plog (x t s : ℝ) (hx : 0 < x) (hs : 0 < s) : t ≤ s * Real.log (x / s) ↔ Kexp t x s := by
+  unfold Kexp
+  have hxs : 0 < x / s := div_pos hx hs
+  constructor
+  · intro h
+    refine ⟨hs, ?_⟩
+    have h1 : t / s ≤ Real.log (x / s) := by
+      rw [div_le_iff₀ hs]; linarith
+    have h2 := (Real.le_log_iff_exp_le hxs).mp h1
+    calc s * Real.exp (t / s) ≤ s * (x / s) := by exact mul_le_mul_of_nonneg_left h2 hs.le
+      _ = x := by field_simp
+  · rintro ⟨_, h⟩
+    have h2 : Real.exp (t / s) ≤ x / s := by
+      rw [le_div_iff₀ hs]; linarith
+    have h1 := (Real.le_log_iff_exp_le hxs).mpr h2
+    rw [div_le_iff₀ hs] at h1; linarith
+
+/-- entropy, one term: `u ≤ -x log x` is the cone membership `(u, 1, x)` -/
+theorem cone_form_entropy (x u : ℝ) (hx : 0 < x) : u ≤ -(x * Real.log x) ↔ Kexp u 1 x := by
+  have h := cone_form_plog 1 u x one_pos hx
+  have hl : Real.log (1 / x) = -Real.log x := by rw [one_div, Real.log_inv]
+  rw [hl] at h
+  rw [← h]
+  constructor <;> intro h' <;> linarith
+
+/-- KL divergence, one term: `p log(p/q) ≤ u` is the cone membership `(-u/q, 1, p/q)` (what `kldiv` compiles, `q` a positive number) -/
+theorem cone_form_kl (p q u : ℝ) (hp : 0 < p) (hq : 0 < q) : p * Real.log (p / q) ≤ u ↔ Kexp (-u / q) 1 (p / q) := by
+  have hpq : 0 < p / q := div_pos hp hq
+  have h := cone_form_entropy (p / q) (-u / q) hpq
+  rw [← h]
+  constructor
+  · intro h'
+    have : -u / q = -(u / q) := by ring
+    rw [this, neg_le_neg_iff]
+    have : p / q * Real.log (p / q) = (p * Real.log (p / q)) / q := by ring
+    rw [this]
+    exact div_le_div_of_nonneg_right h' hq.le
+  · intro h'
+    have e1 : -u / q = -(u / q) := by ring
+    rw [e1, neg_le_neg_iff] at h'
+    have e2 : p / q * Real.log (p / q) = (p * Real.log (p / q)) / q := by ring
+    rw [e2] at h'
+    exact (div_le_div_iff_of_pos_right hq).mp h'
+
+/-- softplus: `log(1 + exp x) ≤ t` iff two exponential cones and one linear row -/
+theorem cone_form_softplus (x t : ℝ) :
+    Real.log (1 + Real.exp x) ≤ t ↔ ∃ a b : ℝ, Kexp (x - t) a 1 ∧ Kexp (-t) b 1 ∧ a + b ≤ 1 := by
+  have hpos : 0 < 1 + Real.exp x := by positivity
+  have key : Real.exp (x - t) + Real.exp (-t) = (1 + Real.exp x) * Real.exp (-t) := by
+    rw [sub_eq_add_neg, Real.exp_add]; ring
+  constructor
+  · intro h
+    refine ⟨Real.exp (x - t), Real.exp (-t), by simp [Kexp], by simp [Kexp], ?_⟩
+    rw [key]
+    have h2 : 1 + Real.exp x ≤ Real.exp t := (Real.log_le_iff_le_exp hpos).mp h
+    have : (1 + Real.exp x) * Real.exp (-t) ≤ Real.exp t * Real.exp (-t) :=
+      mul_le_mul_of_nonneg_right h2 (Real.exp_pos _).le
+    rw [← Real.exp_add] at this
+    simpa using this
+  · rintro ⟨a, b, ⟨_, ha⟩, ⟨_, hb⟩, hab⟩
+    simp at ha hb
+    rw [Real.log_le_iff_le_exp hpos]
+    have h1 : (1 + Real.exp x) * Real.exp (-t) ≤ 1 := by rw [← key]; linarith
+    have h2 := mul_le_mul_of_nonneg_right h1 (Real.exp_pos t).le
+    rw [mul_assoc, ← Real.exp_add] at h2
+    simpa using h2
+
+end ConeForms
+
 #print axioms weak_duality
 #print axioms weak_duality_eq
 #print axioms soc_pairing
@@ -262,3 +344,9 @@ end TowerInduction
 #print axioms pow_two_even
 #print axioms tower_sound
 #print axioms tower_exact
+#print axioms cone_form_exp
+#print axioms cone_form_log
+#print axioms cone_form_plog
+#print axioms cone_form_entropy
+#print axioms cone_form_kl
+#print axioms cone_form_softplus
